@@ -3,6 +3,8 @@ import algebra
 
 
 def run(v, tier, seed, replay):
+    if replay:
+        return algebra.replay(v, replay, 64)
     un = ["tomatrix", "neg", "scale", "div", "transpose", "real", "imag"]
     bi = ["add", "sub", "eq"]
     npat = 6 if tier == "quick" else 30
